@@ -17,7 +17,7 @@ fn setup(ctx: &mut Ctx, what: &str) {
 
 pub fn c02(ctx: &mut Ctx) {
     setup(ctx, "SR/RR: k-deviation product over all scalar fields and the seven fields of one distinguished block (walk alphabets), every block count x every legal padding, full product fraction-lost x cumulative-lost");
-    ctx.bound("deviations", ctx.tier.pick("k<=2", "k<=3"));
+    ctx.bound("deviations", ctx.tier.pick("k<=2 over 12 shapes", "k<=2 over 30 shapes (block count, distinguished block, padding, SR/RR) and k<=3 over 4 shapes"));
     ctx.bound("blocks", "0..=31");
     ctx.bound("padding", "all 64 legal values");
     let spaces = gens::sr_rr_spaces(ctx.tier, ctx.seed);
